@@ -111,6 +111,20 @@ theorem c11_context_dependence_witness :
     (parseTop 20 { toks := [2], defs := defs, memoOn := false } .emit g).accepted = some true :=
   cex_ctx
 
+/-- **the partial clause is tight** (kernel-checked witness, reproduced on the real crate — DESIGN §0.1, observations): a
+    memoized parser that fails AFTER emitting (`validate`), shared through a definition and revisited at the same position
+    under a slice-flavoured choice, is answered from the table without re-emitting, so the failed parse reports the primary
+    error only, while the unmemoized grammar reports the emission too. Emitters are outside C11's C01/C02 class. -/
+theorem c11_failed_emission_witness :
+    let d : G := .then_ (.validate ⟨.always, 5, 1⟩ .any) (.just [122])
+    let main : G := .choice .slice [.then_ (.call 0) (.just [120]), .then_ (.call 0) (.just [121])]
+    (match parseTop 30 { toks := [97, 98], defs := [.memoized 1 d], memoOn := true } .emit main,
+           parseTop 30 { toks := [97, 98], defs := [d], memoOn := true } .emit main with
+      | .result r _, .result r' _ => (r.output, r.errs.length, r'.output, r'.errs.length)
+      | _, _ => (none, 0, none, 0)) = (none, 1, none, 2) := by
+  decide +kernel
+
+#print axioms c11_failed_emission_witness
 #print axioms c11_transparent
 #print axioms c11_transparent_with_validate_partial
 #print axioms c11_run_transparent
